@@ -591,3 +591,117 @@ Proof.
   - intros He. split; [now apply fget_timer_src|].
     apply (timer_src_sound ptod d f); [exact Hok|]. now destruct (timer_src ptod d f).
 Qed.
+
+(* ================= 4. timer_progress ================= *)
+
+(* The adapter honours get_timer(): it returned v; the adapter calls handle_timer(now = v) and then transmits
+   (datagrams_to_send(now = v)), as aioquic.asyncio's _handle_timer does. *)
+Definition fire1 (reset : bool) (ptod v : Z) (te : teff) (f : full) : full :=
+  snd (fstep reset (snd (fstep reset f (FGetTimer ptod))) (FTimer v te)).
+Definition fire2 (reset : bool) (ptod v pto3 : Z) (te : teff) (w : sendw) (f : full) : full :=
+  snd (fstep reset (fire1 reset ptod v te f) (FSend v pto3 w)).
+
+Lemma ack_scan_lt l : forall i cur v s, ack_scan i l cur = (v, s) -> (v, s) = cur \/ v < fst cur.
+Proof.
+  induction l as [|h t IH]; intros i cur v s H; cbn [ack_scan] in H; [left; congruence|].
+  apply IH in H. destruct (ts_ack_at h) as [a|]; [|exact H]. destruct (a <? fst cur) eqn:E; [|exact H].
+  apply Z.ltb_lt in E. destruct H as [H|H]; [inversion H; subst; right; exact E|cbn in H; right; lia].
+Qed.
+
+Lemma timer_src_lt ptod d f v s : timer_src ptod d f = (v, s) -> (s = SrcClose /\ v = d) \/ (s <> SrcClose /\ v < d).
+Proof.
+  unfold timer_src. destruct (ack_scan 0 (f_sp f) (d, SrcClose)) as [v0 s0] eqn:E0.
+  assert (H0 : (s0 = SrcClose /\ v0 = d) \/ (s0 <> SrcClose /\ v0 < d)).
+  { pose proof (ack_scan_spec _ _ _ _ _ E0) as (_ & _ & A3). apply ack_scan_lt in E0. cbn in E0.
+    destruct E0 as [E|E]; [inversion E; auto|]. right. split; [|exact E].
+    destruct A3 as [A3|(j & sp & -> & _)]; [inversion A3; lia|discriminate]. }
+  cbn [fst].
+  set (cur1 := match lspace (f_sp f) with
+               | Some (i, lt) => if lt <? v0 then (lt, SrcLossTime i) else (v0, s0)
+               | None => if negb (f_pcav f) || (sum_aeif (f_sp f) >? 0)
+                         then (if ptod <? v0 then (ptod, SrcPto) else (v0, s0)) else (v0, s0) end).
+  assert (H1 : (snd cur1 = SrcClose /\ fst cur1 = d) \/ (snd cur1 <> SrcClose /\ fst cur1 < d)).
+  { subst cur1. destruct (lspace (f_sp f)) as [[i lt]|].
+    - destruct (lt <? v0) eqn:E; [|exact H0]. apply Z.ltb_lt in E. right. cbn. split; [discriminate|]. destruct H0 as [[_ ->]|[_ H0]]; lia.
+    - destruct (negb (f_pcav f) || (sum_aeif (f_sp f) >? 0)); [|exact H0].
+      destruct (ptod <? v0) eqn:E; [|exact H0]. apply Z.ltb_lt in E. right. cbn. split; [discriminate|]. destruct H0 as [[_ ->]|[_ H0]]; lia. }
+  destruct cur1 as [v1 s1]. cbn [fst snd] in *. destruct (f_pacing f) as [p|]; [|intros H; inversion H; subst; exact H1].
+  destruct (p <? v1) eqn:E; intros H; inversion H; subst; [|exact H1].
+  apply Z.ltb_lt in E. right. split; [discriminate|]. destruct H1 as [[_ ->]|[_ H1]]; lia.
+Qed.
+
+Lemma nth_upd_same g : forall l i, (i < length l)%nat -> nth i (upd i g l) ts_init = g (nth i l ts_init).
+Proof. induction l; intros i H; cbn in *; [lia|]. destruct i; cbn; [reflexivity|]. apply IHl. lia. Qed.
+Lemma nth_upd_other g : forall l i j, i <> j -> nth i (upd j g l) ts_init = nth i l ts_init.
+Proof. induction l; intros i j H; cbn; [destruct j; reflexivity|]. destruct j, i; cbn; try reflexivity; try congruence. apply IHl. congruence. Qed.
+Lemma upd_nth_error g : forall l i s, nth_error l i = Some s -> nth_error (upd i g l) i = Some (g s).
+Proof. induction l; intros i s H; destruct i; cbn in *; try discriminate; [congruence|auto]. Qed.
+
+(* the part of the firing that is common to every source other than _close_at: handle_timer does not terminate *)
+Lemma fire1_not_due reset ptod v te f d : c_close_at (f_c f) = Some d -> is_end (c_state (f_c f)) = false -> v < d ->
+  fire1 reset ptod v te f =
+    (let f0 := set_c (set_loss_at (loss_time_of f ptod) (f_c f)) f in
+     match loss_time_of f ptod with
+     | Some la => if v >=? la then on_loss_detection_timeout te f0 else f0
+     | None => f0
+     end).
+Proof.
+  intros Hd He Hv. unfold fire1. cbn [fstep]. unfold fget_timer, get_timer. rewrite He.
+  destruct (fold_left (fun cur a => tmin a cur) (acks_of f) (Ok (c_close_at (f_c f)))) as [cur|k] eqn:Ef.
+  2:{ exfalso. rewrite Hd in Ef. unfold acks_of in Ef. pose proof (fold_ack_scan (f_sp f) O (d, SrcClose)) as Hf. cbn [fst] in Hf. congruence. }
+  cbn [snd]. unfold ftimer. cbn [f_c set_c].
+  assert (Ht : timer v (set_loss_at (loss_time_of f ptod) (f_c f)) = Ok (set_loss_at (loss_time_of f ptod) (f_c f))).
+  { apply (timer_before_deadline _ d); [exact Hd|exact Hv]. }
+  rewrite Ht. unfold fired. cbn [c_close_at set_loss_at]. rewrite Hd.
+  assert (Hn : (v >=? d) = false) by (rewrite Z.geb_leb; apply Z.leb_gt; lia). rewrite Hn. cbn [c_loss_at set_loss_at].
+  destruct (loss_time_of f ptod) as [la|]; [destruct (v >=? la)|]; reflexivity.
+Qed.
+
+Lemma timer_progress_close reset ptod te f d : inv (f_c f) -> c_close_at (f_c f) = Some d -> is_end (c_state (f_c f)) = false ->
+  c_state (f_c (fire1 reset ptod d te f)) = TERMINATED.
+Proof.
+  intros Hi Hd He. unfold fire1. destruct (fstep_base reset f (FGetTimer ptod)) as [_ H0].
+  set (f0 := snd (fstep reset f (FGetTimer ptod))) in *.
+  assert (Hd0 : c_close_at (f_c f0) = Some d).
+  { rewrite H0. cbn [base_op step]. unfold get_timer. rewrite He.
+    destruct (fold_left _ _ _); [destruct (tmin _ _)|]; exact Hd. }
+  assert (Hi0 : inv (f_c f0)).
+  { rewrite H0. destruct (step (f_c f) (base_op f (FGetTimer ptod))) as [r c0] eqn:Es. eapply inv_step; eauto. }
+  destruct (fstep_base reset f0 (FTimer d te)) as [_ H1]. rewrite H1. cbn [base_op step].
+  destruct (timer_at_deadline (f_c f0) d d Hi0 Hd0 ltac:(lia)) as (c' & k & Ht & Hs & _). rewrite Ht. exact Hs.
+Qed.
+
+Lemma timer_progress_loss reset ptod te f d v i : c_close_at (f_c f) = Some d -> is_end (c_state (f_c f)) = false ->
+  timer_src ptod d f = (v, SrcLossTime i) -> oks f ->
+  f_sp (fire1 reset ptod v te f) = upd i (ts_detect (hd 0 (te_ae te)) (te_lt te)) (f_sp f) /\
+  sp_at (fire1 reset ptod v te f) i = ts_detect (hd 0 (te_ae te)) (te_lt te) (sp_at f i) /\
+  ts_disc (sp_at f i) = false.
+Proof.
+  intros Hd He Hs Hok. destruct (timer_src_lt _ _ _ _ _ Hs) as [[? _]|[_ Hv]]; [discriminate|].
+  destruct (timer_src_sound _ _ _ _ _ Hok Hs) as [(sp & Hn & Hl & Hdi & Hls) _].
+  rewrite (fire1_not_due reset ptod v te f d Hd He Hv). cbv zeta. unfold loss_time_of. rewrite Hls.
+  assert (Hg : (v >=? v) = true) by (rewrite Z.geb_leb; apply Z.leb_refl). rewrite Hg.
+  unfold on_loss_detection_timeout. cbn [f_sp set_c]. rewrite Hls. cbn [upd_sp set_sp f_sp].
+  assert (Hlen : (i < length (f_sp f))%nat) by (apply nth_error_Some; congruence).
+  assert (Hsp : sp_at f i = sp) by (unfold sp_at; now apply nth_error_nth).
+  repeat split; [|rewrite Hsp; exact Hdi]. unfold sp_at, upd_sp. cbn [f_sp set_sp set_c]. rewrite nth_upd_same by exact Hlen. reflexivity.
+Qed.
+
+Lemma timer_progress_pto reset ptod te f d v : c_close_at (f_c f) = Some d -> is_end (c_state (f_c f)) = false ->
+  timer_src ptod d f = (v, SrcPto) -> oks f ->
+  f_pto (fire1 reset ptod v te f) = f_pto f + 1 /\ f_probe (fire1 reset ptod v te f) = true /\
+  f_probes (fire1 reset ptod v te f) = f_probes f + 1.
+Proof.
+  intros Hd He Hs Hok. destruct (timer_src_lt _ _ _ _ _ Hs) as [[? _]|[_ Hv]]; [discriminate|].
+  destruct (timer_src_sound _ _ _ _ _ Hok Hs) as [(-> & Hls & Harm) _].
+  rewrite (fire1_not_due reset ptod ptod te f d Hd He Hv). cbv zeta. unfold loss_time_of. rewrite Hls.
+  assert (Ha : negb (f_pcav f) || (sum_aeif (f_sp f) >? 0) = true).
+  { (* the source was consulted, so it was armed *)
+    revert Hs. unfold timer_src. rewrite Hls. destruct (negb (f_pcav f) || (sum_aeif (f_sp f) >? 0)); [reflexivity|].
+    destruct (ack_scan 0 (f_sp f) (d, SrcClose)) as [v0 s0] eqn:E0. cbn [fst].
+    pose proof (ack_scan_spec _ _ _ _ _ E0) as (_ & _ & A3).
+    destruct (f_pacing f) as [p|]; [destruct (p <? v0)|]; intros H; inversion H; subst;
+      destruct A3 as [A3|(j & sp & A3 & _)]; congruence. }
+  rewrite Ha. assert (Hg : (ptod >=? ptod) = true) by (rewrite Z.geb_leb; apply Z.leb_refl). rewrite Hg.
+  unfold on_loss_detection_timeout. cbn [f_sp set_c]. rewrite Hls. cbn. auto.
+Qed.
